@@ -245,11 +245,20 @@ fn paris_test(c: &ParisCase, obs: &mut Obs) -> CheckResult {
     Ok(())
 }
 
+/// "so that the datagram with the checksum inserted sums to 0xFFFF", on what the tracer emits:
+/// the C11 wire check over generated configurations, keeping only its checksum oracles.
+fn emitted_test(c: &super::SimCase, obs: &mut Obs) -> CheckResult {
+    match super::c11::test(c, obs) {
+        Err(f) if f.sig.contains("checksum") => Err(f),
+        _ => Ok(()),
+    }
+}
+
 pub fn check() -> PropertyCheck {
     PropertyCheck {
         id: "C13",
         level: "exploration",
-        rule: "differential: (kind in ICMPv4/ICMPv6/UDPv4/UDPv6/TCPv4/IPv4 header, header + payload 0..1024 octets random / all-ones / all-zero / alternating with arbitrary bytes in the checksum field, random / all-ones / all-zero address pair) by proptest against an independent RFC 1071 implementation, and the datagram with the checksum inserted must sum to 0xFFFF; distinct by (kind, length, content hash, addresses). paris-sweep: every one of the 65 536 sequence values x both families x port pairs dispatched through the real Channel::send_probe over the simulated socket; the checksum field must equal the sequence and the captured datagram must verify; evaluations count datagrams",
+        rule: "emitted-datagrams: every ICMP / UDP probe of generated configurations (sizes, patterns, tos, sequences, both families) captured at the simulated send socket must verify with the independent RFC 1071 code. differential: (kind in ICMPv4/ICMPv6/UDPv4/UDPv6/TCPv4/IPv4 header, header + payload 0..1024 octets random / all-ones / all-zero / alternating with arbitrary bytes in the checksum field, random / all-ones / all-zero address pair) by proptest against an independent RFC 1071 implementation, and the datagram with the checksum inserted must sum to 0xFFFF; distinct by (kind, length, content hash, addresses). paris-sweep: every one of the 65 536 sequence values x both families x port pairs dispatched through the real Channel::send_probe over the simulated socket; the checksum field must equal the sequence and the captured datagram must verify; evaluations count datagrams",
         assumptions: vec!["data passed to the checksum functions is at least one transport header long (the functions are only ever called on complete headers)"],
         subs: vec![
             Box::new(Pbt {
@@ -259,6 +268,14 @@ pub fn check() -> PropertyCheck {
                 strat: sum_strat,
                 test: sum_test,
                 max_shrink: 5000,
+            }),
+            Box::new(Pbt {
+                name: "emitted-datagrams",
+                quick: 40_000,
+                thorough: 1_500_000,
+                strat: super::c11::strat,
+                test: emitted_test,
+                max_shrink: 3000,
             }),
             Box::new(Enumerated {
                 name: "paris-sweep",
